@@ -512,7 +512,7 @@ def body_main(case):
     if diff is not None:
         res.fail("value", dict(diff, spec=spec))
         return fin()
-    want_files = {n["file_name"]: idlang.logger_file(n) for n in loggers}
+    want_files = {n["file_name"]: n["content"] for n in loggers}
     if want_files:
         labels.append("runnables")
     if r["files"] != want_files:
